@@ -786,7 +786,7 @@ func c12FillHist(c *ctx, cs c12Case) {
 }
 
 func runC12(c *ctx) {
-	c.Rule = "every numeric factory (I1-I8, U1-U8, F4, F8) x every accepted Go integer type x {type min/max, node min-1/min/max/max+1, 0, -1, +-2^k, +-2^k+-1, random}, through the factory and through FillVariables; float32/float64 arguments incl. NaN/Inf/overflow/rounding; all ints around [0,255] and binary-literal strings for B; strings over all of Unicode and invalid UTF-8 for A; ~3000 variable-name candidates in 8 positions classified by a hand-written recogniser; duplicates, ellipsis placement, ASCII bounds, wrong Go types; message factories and producers over the header constraints. Oracle: math/big domain tables; stored value read back from ToBytes() and String(). non-trivial = argument within 2 of a domain boundary or of the Go type's limits (numeric), any case otherwise; distinct by (factory, Go type, value) Also (rounds 5-8): header values that alias valid ones modulo 2^8/2^16/2^32; out-of-range values among in-range neighbours at every position; one object in two places of a tree; invalid width arguments; a fill after the stamp; small trees encoded side by side. Also (round 9): four fills of one node object with refused fills in between, each compared with the same fill of a fresh twin; ellipsis placements the factory refuses reached by a rename through FillVariables."
+	c.Rule = "every numeric factory (I1-I8, U1-U8, F4, F8) x every accepted Go integer type x {type min/max, node min-1/min/max/max+1, 0, -1, +-2^k, +-2^k+-1, random}, through the factory and through FillVariables; float32/float64 arguments incl. NaN/Inf/overflow/rounding; all ints around [0,255] and binary-literal strings for B; strings over all of Unicode and invalid UTF-8 for A; ~3000 variable-name candidates in 8 positions classified by a hand-written recogniser; duplicates, ellipsis placement, ASCII bounds, wrong Go types; message factories and producers over the header constraints. Oracle: math/big domain tables; stored value read back from ToBytes() and String(). non-trivial = argument within 2 of a domain boundary or of the Go type's limits (numeric), any case otherwise; distinct by (factory, Go type, value) Also (rounds 5-8): header values that alias valid ones modulo 2^8/2^16/2^32; out-of-range values among in-range neighbours at every position; one object in two places of a tree; invalid width arguments; a fill after the stamp; small trees encoded side by side. Also (round 9): four fills of one node object with refused fills in between, each compared with the same fill of a fresh twin; ellipsis placements the factory refuses reached by a rename through FillVariables. Also (round 10): messages that have been encoded are stamped again through fourteen session ids around -1, 0, 255|256, 65535|65536 and 2^31-1, each result encoded and compared with the reference (nothing for -1)."
 	c.Assume = []string{"a panic of any kind is a refusal", "F4 band between MaxFloat32 and the rounding midpoint: refuse or store MaxFloat32", "binary-literal strings with digit separators and integer types other than int for B: refuse or store exactly"}
 
 	// numeric: boundary candidates per (kind, go type)
